@@ -568,10 +568,13 @@ func c20Child(e *Env, mode string) {
 		if len(long) > 0 {
 			n2 := 6
 			if mode == "race-workload-child" {
-				n2 = 2
+				n2 = 1
 			}
 			old := runtime.GOMAXPROCS(256) // more runnable threads than cores: the OS preempts calls in the middle of a list
-			const G2 = 200
+			G2 := 200
+			if mode == "race-workload-child" && !e.Thorough {
+				G2 = 96
+			}
 			bad2 := make([]string, G2)
 			var ready int32
 			var wg sync.WaitGroup
@@ -585,7 +588,7 @@ func c20Child(e *Env, mode string) {
 						imgs[k] = append([]byte(nil), c.bytes...)
 					}
 					atomic.AddInt32(&ready, 1)
-					for spins := 0; atomic.LoadInt32(&ready) < G2; spins++ {
+					for spins := 0; atomic.LoadInt32(&ready) < int32(G2); spins++ {
 						if spins > 1000 {
 							runtime.Gosched()
 						}
@@ -733,7 +736,12 @@ func c20(e *Env) {
 			if i := strings.Index(rn.label, "GOMAXPROCS_"); i >= 0 {
 				cmd.Env = append(cmd.Env, "GOMAXPROCS="+rn.label[i+len("GOMAXPROCS_"):])
 			}
-			out, err := cmd.CombinedOutput()
+			t0 := time.Now()
+			out, err := watchedOutput(r, cmd, e.Thorough, rn.label)
+			r.Set("seconds_"+rn.label, int(time.Since(t0).Seconds()))
+			if strings.Contains(string(out), "SIGQUIT: quit") {
+				break // the watchdog fired (reported by watchedOutput): the other builds would only wait as long again
+			}
 			races := 0
 			first := ""
 			for _, f := range globLogs(logBase) {
